@@ -208,9 +208,9 @@ func operandForm(tag string) MalType {
 // macro body templates over parameters a, b (and rest r)
 func macroBody(tag string, rest bool) MalType {
 	uq := func(n string) MalType { return lst(sym("unquote"), sym(n)) }
-	n := 10
+	n := 11
 	if rest {
-		n = 11
+		n = 12
 	}
 	switch vrt.Concrete(vrt.Choice(tag, n)) {
 	case 0: // (list a b)
@@ -235,6 +235,8 @@ func macroBody(tag string, rest bool) MalType {
 		return sym("a")
 	case 9: // expands to a vector nested in a call
 		return lst(sym("quasiquote"), lst(sym("list"), Vector{Val: []MalType{uq("b")}}, uq("a")))
+	case 10: // an effect at expansion time: happens once per call, before any operand is evaluated
+		return lst(sym("do"), lst(sym("trace!"), NewKeyword("expanding")), lst(sym("quasiquote"), lst(sym("list"), uq("a"), uq("b"))))
 	default: // & rest spliced
 		return lst(sym("quasiquote"), lst(sym("list"), uq("a"), lst(sym("splice-unquote"), sym("r"))))
 	}
